@@ -657,6 +657,107 @@ def lift_inverse(repo):
     return True
 
 
+
+# ------------------------------------------------------------------------------------------- life cycle
+def _boolx(node, atoms, what):
+    """not / and / or over named atoms (source text -> Lean name)"""
+    key = _src(node)
+    if key in atoms:
+        return atoms[key]
+    if isinstance(node, ast.UnaryOp) and isinstance(node.op, ast.Not):
+        return f"(!{_boolx(node.operand, atoms, what)})"
+    if isinstance(node, ast.BoolOp):
+        op = " && " if isinstance(node.op, ast.And) else " || "
+        return "(" + op.join(_boolx(v, atoms, what) for v in node.values) + ")"
+    _bad(f"{what}: cannot translate condition `{key}`")
+
+
+def _nodoc(body):
+    return [s for s in body if not (isinstance(s, ast.Expr) and isinstance(s.value, ast.Constant) and isinstance(s.value.value, str))]
+
+
+def lift_lifecycle(cls):
+    """which latches decide about (re-)initialisation in fit / partial_fit / _validate_input / predict"""
+    HAS = "hasattr(self, 'classes_')"
+    fit = _find_fn(cls, "fit", REL)
+    pfit = _find_fn(cls, "partial_fit", REL)
+    val = _find_fn(cls, "_validate_input", REL)
+    raw = _find_fn(cls, "_raw_predict", REL)
+
+    def validate_call(fn, what):
+        calls = [(i, s) for i, s in enumerate(fn.body) if isinstance(s, ast.Assign) and isinstance(s.value, ast.Call)
+                 and _src(s.value.func) == "self._validate_input"]
+        if len(calls) != 1 or sum(1 for n in ast.walk(fn) if isinstance(n, ast.Call) and _src(n.func) == "self._validate_input") != 1:
+            _bad(f"{what}: expected exactly one top-level self._validate_input call")
+        i, st = calls[0]
+        a = st.value.args
+        if len(a) != 4 or st.value.keywords or [_src(x) for x in a[:3]] != ["X", "y", "sensitive_features"] \
+                or not isinstance(a[3], ast.Name):
+            _bad(f"{what}: _validate_input call of unknown shape: {_src(st)}")
+        return i, a[3].id
+
+    def local_bool(fn, name, upto, atoms, what):
+        d = [(i, s) for i, s in enumerate(fn.body[:upto]) if isinstance(s, ast.Assign) and len(s.targets) == 1
+             and _src(s.targets[0]) == name]
+        if len(d) != 1 or any(name in _assigned(s) for j, s in enumerate(fn.body) if j != d[0][0]):
+            _bad(f"{what}: `{name}` must be assigned exactly once, before _validate_input")
+        return d[0][0], _boolx(d[0][1].value, atoms, what), _src(d[0][1])
+
+    # fit
+    iv, rname = validate_call(fit, "fit")
+    _, fit_reinit, fit_src = local_bool(fit, rname, iv, {HAS: "has_classes", "self.warm_start": "warm_start"}, "fit")
+    guards = [i for i, s in enumerate(fit.body) if isinstance(s, ast.If) and len(s.body) == 1 and isinstance(s.body[0], ast.Raise)
+              and ({"self.epochs", "self.max_iter"} & {_src(n) for n in ast.walk(s.test)})]
+    if len(guards) != 1:
+        _bad("fit: rejection guard not found")
+    validates_first = iv < guards[0]
+    # partial_fit
+    ip, fname = validate_call(pfit, "partial_fit")
+    i_fc, pf_first, pf_src = local_bool(pfit, fname, ip, {HAS: "has_classes"}, "partial_fit")
+    sets = [(i, s) for i, s in enumerate(pfit.body) if "self.classes_" in _assigned(s)]
+    if len(sets) != 1:
+        _bad(f"partial_fit: expected exactly one statement assigning self.classes_, found {len(sets)}")
+    i_sc, sc = sets[0]
+    ok = (isinstance(sc, ast.If) and not sc.orelse and len(sc.body) == 1 and _src(sc.body[0]) == "self.classes_ = classes"
+          and i_fc < i_sc < ip)
+    if not ok:
+        _bad(f"partial_fit: classes_ assignment of unknown shape / position: {_src(sc)[:80]}")
+    pf_sets = _boolx(sc.test, {fname: "first_call", "classes is not None": "classes_given"}, "partial_fit/classes_")
+    # _validate_input
+    params = [a.arg for a in val.args.args]
+    if params[:4] != ["self", "X", "y", "A"] or len(params) != 5:
+        _bad(f"_validate_input: parameters {params}")
+    rparam = params[4]
+    tries = [s for s in val.body if isinstance(s, ast.Try)]
+    okt = (len(tries) == 1 and [_src(x) for x in tries[0].body] == ["check_is_fitted(self)", "is_fitted = True"]
+           and len(tries[0].handlers) == 1 and _src(tries[0].handlers[0].type) == "NotFittedError"
+           and [_src(x) for x in tries[0].handlers[0].body] == ["is_fitted = False"] and not tries[0].orelse and not tries[0].finalbody)
+    if not okt:
+        _bad("_validate_input: the is_fitted probe is not `try: check_is_fitted(self); is_fitted = True / except NotFittedError: is_fitted = False`")
+    setups = [(i, s) for i, s in enumerate(val.body) if isinstance(s, ast.If) and not s.orelse and len(s.body) == 1
+              and _src(s.body[0]) == "self.__setup(X, y, A)"]
+    n_setup_calls = sum(1 for n in ast.walk(cls) if isinstance(n, ast.Call) and _src(n.func) == "self.__setup")
+    if len(setups) != 1 or n_setup_calls != 1 or setups[0][0] < val.body.index(tries[0]):
+        _bad(f"_validate_input: expected exactly one `if ...: self.__setup(X, y, A)` after the is_fitted probe ({n_setup_calls} calls in the class)")
+    setup_when = _boolx(setups[0][1].test, {"is_fitted": "is_fitted", rparam: "reinitialize"}, "_validate_input/setup")
+    latch = [(i, s) for i, s in enumerate(val.body) if isinstance(s, ast.If) and _src(s.test) == f"not {HAS}"]
+    if len(latch) != 1 or latch[0][0] < setups[0][0] or [_src(x) for x in latch[0][1].body] != ["self.classes_ = unique(y)"]:
+        _bad("_validate_input: `if not hasattr(self, 'classes_'): self.classes_ = unique(y)` not found after the setup")
+    # the fitted latch
+    isf = _find_fn(cls, "__sklearn_is_fitted__", REL)
+    b = _nodoc(isf.body)
+    if len(b) != 1 or _src(b[0]) != "return hasattr(self, '_is_setup')":
+        _bad(f"__sklearn_is_fitted__: {[_src(x) for x in b]}")
+    setup = _find_fn(cls, "__setup", REL)
+    writes = [n for n in ast.walk(cls) if isinstance(n, (ast.Assign, ast.AugAssign, ast.Delete)) and "self._is_setup" in _src(n)]
+    if _src(setup.body[-1]) != "self._is_setup = True" or len(writes) != 1:
+        _bad("__setup does not end with `self._is_setup = True` / the latch is written elsewhere")
+    rb = _nodoc(raw.body)
+    checks = _src(rb[0]) == "check_is_fitted(self)" if rb else False
+    return dict(fitReinit=(fit_reinit, fit_src), validatesFirst=validates_first, pfFirst=(pf_first, pf_src),
+                pfSets=(pf_sets, _src(sc).replace("\n", " ")), setupWhen=(setup_when, _src(setups[0][1].test)), predictChecks=checks)
+
+
 # ------------------------------------------------------------------------------------------- emission
 def _doc(s):
     return s.replace("-/", "- /").replace("\n", " ")
@@ -671,6 +772,7 @@ def adv_schedule(repo):
     npf = lift_partial_fit(_find_fn(cls, "partial_fit", REL))
     p = lift_predict(cls, tree)
     lift_inverse(repo)
+    lc = lift_lifecycle(cls)
     cb = r["cb"]
     o = ["/-", f"GENERATED by harness/lifters/adv_schedule.py from {REL}", f"and {REL_PRE}. Do not edit.",
          "Roles of the locals in `fit`: " + ", ".join(f"{k}=`{v}`" for k, v in sorted(r["roles"].items())), "-/",
@@ -710,6 +812,14 @@ def adv_schedule(repo):
     d("multiclassRule", "", "Decision", "." + p["multi"][0], p["multi"][1] + "; b[a, c] = 1")
     d("continuousRule", "", "Decision", ".identity", "lambda pred: pred")
     d("predictStages", "", "List Stage", "[" + ", ".join("." + s for s in p["stages"]) + "]", "predict")
+    d("fitReinit", "(has_classes warm_start : Bool)", "Bool", lc["fitReinit"][0], "fit: " + lc["fitReinit"][1])
+    d("fitValidatesBeforeReject", "", "Bool", "true" if lc["validatesFirst"] else "false",
+      "fit: self._validate_input(..) (which may set the estimator up) stands before the epochs / max_iter rejection")
+    d("partialFitFirstCall", "(has_classes : Bool)", "Bool", lc["pfFirst"][0], "partial_fit: " + lc["pfFirst"][1])
+    d("partialFitSetsClasses", "(first_call classes_given : Bool)", "Bool", lc["pfSets"][0], "partial_fit: " + lc["pfSets"][1])
+    d("setupWhen", "(is_fitted reinitialize : Bool)", "Bool", lc["setupWhen"][0],
+      "_validate_input: if " + lc["setupWhen"][1] + ": self.__setup(X, y, A)  (is_fitted = hasattr(self, '_is_setup'), set at the end of __setup)")
+    d("rawPredictChecksFitted", "", "Bool", "true" if lc["predictChecks"] else "false", "_raw_predict starts with check_is_fitted(self)")
     o += ["end AdvScheduleSrc", ""]
     meta = dict(body=r["body"], acc=cb["acc"][0], binary=p["binary"][0], multi=p["multi"][0], shuffle=r["shuffleAt"],
                 roles=r["roles"])
